@@ -6,5 +6,6 @@ INVARIANT IntegrityFirst
 INVARIANT Faithful
 INVARIANT TypDefault
 INVARIANT HeaderUntouched
+INVARIANT HeaderAsOnWire
 INVARIANT Export
 CHECK_DEADLOCK FALSE
